@@ -2,7 +2,7 @@
    HMS machine, any configuration, any length. *)
 From Coq Require Import List Bool Arith ZArith.
 From HV Require Import Ord Sprout Tree TreeLemmas TreeInv TreeRun.
-From HV Require Import DriverPrim Driver DriverFacts GenDriver GenEquivDriver DriverCode.
+From HV Require Import DriverPrim Driver DriverFacts GenDriver GenEquivDriver DriverCode GenStops GenEquivStops.
 Import ListNotations.
 
 (* the run ends only through a TRUE consult at a metaepoch boundary, and nothing happens afterwards *)
@@ -89,3 +89,37 @@ Print Assumptions C05_translated_wind_down_always.
 Example C05_translated_example : exists s, exec (gen_tree_run wd_cfg 10) (init 10) wd_events = Some (tt, s, []) /\ map d_after (demes s) = [1; 1; 0] /\
   map d_active (demes s) = [false; false; false] /\ mcount s = 2 /\ length (demes s) = 3 /\ gens_ok wd_cfg.
 Proof. vm_compute. eexists. split; [reflexivity|]. repeat split. intros lv. unfold gens_of, wd_cfg. cbn. destruct lv as [|[|[|lv]]]; cbn; auto. Qed.
+
+(* ---------------------------------------------------------------- the shipped global stop conditions, TRANSLATED from the current
+   pyhms/stop_conditions/gsc.py and usc.py (Gen/GenStops.v): in every state whose demes sit on configured levels (every reachable state:
+   WFT_levels_ok) each of them only looks (state and event stream untouched) and answers exactly what the machine takes as its verdict *)
+Theorem C05_translated_RootStopped c fuel s : exists b, answers (gen_RootStopped c fuel) s b /\ gsc_eval GRootStopped (height c) (ms s) = Some b.
+Proof. exact (RootStopped_ok c fuel s). Qed.
+Print Assumptions C05_translated_RootStopped.
+Theorem C05_translated_AllStopped c fuel s : levels_ok c (demes (ms s)) ->
+  exists b, answers (gen_AllStopped c fuel) s b /\ gsc_eval GAllStopped (height c) (ms s) = Some b.
+Proof. exact (AllStopped_ok c fuel s). Qed.
+Print Assumptions C05_translated_AllStopped.
+Theorem C05_translated_SingularProblemEvalLimitReached c fuel limit ws s :
+  levels_ok c (demes (ms s)) -> (forall d, In d (demes (ms s)) -> nth (d_lvl d) ws 0 = 1) ->
+  exists b, answers (gen_SingularProblemEvalLimitReached c fuel limit) s b /\ gsc_eval (GEvalLimit limit ws) (height c) (ms s) = Some b.
+Proof. exact (SingularProblemEvalLimitReached_ok c fuel limit ws s). Qed.
+Print Assumptions C05_translated_SingularProblemEvalLimitReached.
+Theorem C05_translated_FitnessEvalLimitReached c fuel limit ws s : levels_ok c (demes (ms s)) ->
+  exists b, answers (gen_FitnessEvalLimitReached c fuel limit ws) s b /\ gsc_eval (GEvalLimit limit ws) (height c) (ms s) = Some b.
+Proof. exact (FitnessEvalLimitReached_ok c fuel limit ws s). Qed.
+Print Assumptions C05_translated_FitnessEvalLimitReached.
+Theorem C05_translated_NoActiveNonrootDemes c fuel n s :
+  exists b, answers (gen_NoActiveNonrootDemes c fuel n) s b /\ gsc_eval (GNoActiveNonroot n) (height c) (ms s) = Some b.
+Proof. exact (NoActiveNonrootDemes_ok c fuel n s). Qed.
+Print Assumptions C05_translated_NoActiveNonrootDemes.
+Theorem C05_translated_MetaepochLimit c fuel n s :
+  exists b, answers (gen_MetaepochLimit_tree c fuel n) s b /\ gsc_eval (GMetaLimit n) (height c) (ms s) = Some b.
+Proof. exact (MetaepochLimit_tree_ok c fuel n s). Qed.
+Print Assumptions C05_translated_MetaepochLimit.
+Theorem C05_translated_DontRun c fuel s : exists b, answers (gen_DontRun_tree c fuel) s b /\ gsc_eval GDontRun (height c) (ms s) = Some b.
+Proof. exact (DontRun_tree_ok c fuel s). Qed.
+Print Assumptions C05_translated_DontRun.
+Theorem C05_levels_ok_always c s : WFT c s -> levels_ok c (demes s).
+Proof. exact (WFT_levels_ok c s). Qed.
+Print Assumptions C05_levels_ok_always.
